@@ -28,10 +28,11 @@ Counter f_env("fault.env.mutate");
 Counter f_move("fault.obj.move");
 Counter f_move_keep("fault.obj.move_source_kept_alive");
 Counter p_move_assign("probe.parser_move_assigned");
+Counter p_vector_overload("probe.parse_through_vector_overload");
 
 const char* const NAMES[5] = { "a", "b", "ab", "x", "long-name" };
-const char* const LETTERS[6] = { "a", "b", "x", "", "ab", "A" };
-const char* const GROUPS[3] = { nullptr, "g1", "g2" };
+const char* const LETTERS[7] = { "a", "b", "x", "", "ab", "A", "1" };
+const char* const GROUPS[3] = { nullptr, "g1", "arguments" }; // the second named group is titled like the default group
 const char* const ENVS[3] = { "NITRO_SIM_E0", "NITRO_SIM_E1", "NITRO_SIM_E2" };
 const char* const VALUES[6] = { "v1", "v2", "7", "x=y", "two words", "" };
 
@@ -65,7 +66,7 @@ const std::vector<OpSchema>& opt_schema()
         { "move", { "keep_source" } },
         { "setenv", { "var", "val" } },
         { "unsetenv", { "var" } },
-        { "parse", {} },
+        { "parse", { "overload" } },
         { "probe", {} },
     };
     return s;
@@ -198,7 +199,7 @@ DeclResult apply_declare(no::parser& p, const Op& op, GroupCache* cache = nullpt
             switch (mod)
             {
             case M_SHORT:
-                o.short_name(LETTERS[arg % 6]);
+                o.short_name(LETTERS[arg % 7]);
                 break;
             case M_ENV:
                 o.env(ENVS[arg % 3]);
@@ -212,13 +213,14 @@ DeclResult apply_declare(no::parser& p, const Op& op, GroupCache* cache = nullpt
         };
         bool use_cached = cache && cache->g[group] && (arg & 2);
         no::group& g = use_cached ? *cache->g[group] :
-                       GROUPS[group] ? p.group(GROUPS[group], group == 2 ? "second group" : "") : p.group();
+                       GROUPS[group] ? p.group(GROUPS[group], (group == 2) != ((arg & 8) != 0) ? "second group" : "") : p.group();
         if (cache)
             cache->g[group] = &g;
         bool via_parser = group == 0 && (arg & 1) && !use_cached;
         if (kind == 0)
         {
-            no::option& o = via_parser ? p.option(NAMES[name], "an option") : g.option(NAMES[name], "an option");
+            const char* desc = (arg & 4) ? "an option, described differently this time" : "an option";
+            no::option& o = via_parser ? p.option(NAMES[name], desc) : g.option(NAMES[name], desc);
             with(o);
             if (mod == M_DEFAULT)
                 o.default_value(VALUES[arg % 6]);
@@ -227,7 +229,8 @@ DeclResult apply_declare(no::parser& p, const Op& op, GroupCache* cache = nullpt
         }
         else if (kind == 1)
         {
-            no::multi_option& o = via_parser ? p.multi_option(NAMES[name], "a multi option") : g.multi_option(NAMES[name], "a multi option");
+            const char* desc = (arg & 4) ? "" : "a multi option";
+            no::multi_option& o = via_parser ? p.multi_option(NAMES[name], desc) : g.multi_option(NAMES[name], desc);
             with(o);
             if (mod == M_DEFAULT)
                 o.default_value({ VALUES[arg % 6], "d2" });
@@ -236,7 +239,8 @@ DeclResult apply_declare(no::parser& p, const Op& op, GroupCache* cache = nullpt
         }
         else
         {
-            no::toggle& o = via_parser ? p.toggle(NAMES[name], "a toggle") : g.toggle(NAMES[name], "a toggle");
+            const char* desc = (arg & 4) ? "a toggle (other words)" : "a toggle";
+            no::toggle& o = via_parser ? p.toggle(NAMES[name], desc) : g.toggle(NAMES[name], desc);
             with(o);
             if (mod == M_DEFAULT)
                 o.default_value(static_cast<int>(arg % 3));
@@ -309,7 +313,7 @@ struct ParseResult
     std::string obs, what;
 };
 
-ParseResult do_parse(no::parser& p, const std::vector<std::string>& toks, const DeclModel& m, bool window)
+ParseResult do_parse(no::parser& p, const std::vector<std::string>& toks, const DeclModel& m, bool window, bool via_vector = false)
 {
     ParseResult r;
     std::vector<const char*> argv;
@@ -317,6 +321,17 @@ ParseResult do_parse(no::parser& p, const std::vector<std::string>& toks, const 
     for (auto& t : toks)
         argv.push_back(t.c_str());
     auto body = [&] {
+        if (via_vector)
+        {
+            // the overload taking already tokenised input
+            std::vector<no::user_input> in;
+            for (auto& t : toks)
+                in.emplace_back(t);
+            no::arguments args = p.parse(in);
+            NoFault nf;
+            r.obs = observe(args, m);
+            return;
+        }
         no::arguments args = p.parse(static_cast<int>(argv.size()), argv.data());
         NoFault nf;
         r.obs = observe(args, m);
@@ -470,7 +485,7 @@ struct Exec
             bool mod_must_throw = false, mod_may_throw = false;
             if (mod == M_SHORT)
             {
-                std::string l = LETTERS[arg % 6];
+                std::string l = LETTERS[arg % 7];
                 mod_must_throw = l.size() != 1 || (!mo.letter.empty() && mo.letter != l);
                 if (!mod_must_throw)
                     mo.letter = l;
@@ -582,7 +597,9 @@ struct Exec
                     }
                 }
             }
-            ParseResult got = do_parse(*p, toks, m, true);
+            ParseResult got = do_parse(*p, toks, m, true, (op.a[0] & 1) != 0);
+            if (op.a[0] & 1)
+                p_vector_overload++;
             out.sites.back()[FK_ALLOC] = f.count[FK_ALLOC];
             h.add(static_cast<uint64_t>(got.cat));
             h.adds(got.obs);
@@ -885,9 +902,9 @@ public:
             if (mod == M_SHORT)
             {
                 // mostly legal letters, sometimes "" / "ab", sometimes a clash
-                static const int legal[] = { 0, 1, 2, 5 };
-                int l = rng.chance(1, c13 ? 4 : 10) ? 3 + static_cast<int>(rng.below(2)) : legal[rng.below(4)];
-                arg = l + 6 * static_cast<int>(rng.below(8));
+                static const int legal[] = { 0, 1, 2, 5, 6 };
+                int l = rng.chance(1, c13 ? 4 : 10) ? 3 + static_cast<int>(rng.below(2)) : legal[rng.below(5)];
+                arg = l + 7 * static_cast<int>(rng.below(8));
             }
             op.a[4] = arg;
             // mirror (assuming the documented semantics)
@@ -906,7 +923,7 @@ public:
                 MOption& mo = m.opts[static_cast<size_t>(idx)];
                 if (mod == M_SHORT)
                 {
-                    std::string l = LETTERS[arg % 6];
+                    std::string l = LETTERS[arg % 7];
                     if (l.size() == 1 && (mo.letter.empty() || mo.letter == l))
                         mo.letter = l;
                 }
@@ -1087,6 +1104,7 @@ public:
             {
                 Op op;
                 op.kind = K_PARSE;
+                op.a[0] = rng.chance(1, 3);
                 op.s = gen_argv(true);
                 p.ops.push_back(op);
             }
